@@ -154,6 +154,20 @@ func (g *gctx) decorateProp(p *gProp) {
 		if g.r.Chance(50) {
 			p.Attrs = append(p.Attrs, fmt.Sprintf("rules.minItems = %d", g.r.Range(0, 3)))
 		}
+	case "enum":
+		// repeated scalar option values (printed as a multi-line array)
+		switch g.r.Intn(4) {
+		case 0:
+			p.Attrs = append(p.Attrs, `rules.in = ["ALPHA", "BETA"]`)
+		case 1:
+			p.Attrs = append(p.Attrs, "listRules.filtering.filterable = true", `listRules.filtering.defaultFilters = ["ALPHA", "BETA"]`)
+		case 2:
+			p.Attrs = append(p.Attrs, `rules.in = ["BETA"]`)
+		}
+	case "any":
+		if g.r.Chance(60) {
+			p.Attrs = append(p.Attrs, `types = ["foo.v1.Thing", "other.v2.Type", "x.y.Z"]`)
+		}
 	}
 }
 
